@@ -298,6 +298,19 @@ int vh::run_rd(int, char**) {
         auto a = vh::split(line, ' ');
         if (a.size() < 3) { std::cout << "bad-op\n"; continue; }
         std::string data = vh::from_hex(a[2]);
+        if (a[0] == "rdc" && a.size() >= 4) {
+            // many cut points of one file:  rdc <kind> <hex> <n1,n2,...>  ->  answers joined by " @@ "
+            std::string out;
+            bool first = true;
+            for (const std::string& c : vh::split(a[3], ',')) {
+                std::size_t n = std::min<std::size_t>(data.size(), std::strtoull(c.c_str(), nullptr, 10));
+                if (!first) out += " @@ ";
+                out += read_file(a[1], data.substr(0, n));
+                first = false;
+            }
+            std::cout << out << std::endl;
+            continue;
+        }
         if (a.size() >= 4) data = data.substr(0, std::min<std::size_t>(data.size(), std::strtoull(a[3].c_str(), nullptr, 10)));
         std::cout << read_file(a[1], data) << std::endl;
     }
